@@ -2,74 +2,13 @@
    bundle are single plain names; forward lookups land inside the root, under
    the directory of a stored package; the reverse lookup inverts them and
    reports everything else as not belonging to the bundle. *)
-From Slug Require Import Base.Str Base.PathAlg Base.PathLemmas Addr.Resolve Addr.ResolveProofs
+From Slug Require Import Base.Str Base.PathAlg Base.PathLemmas Base.Rooted Addr.Resolve Addr.ResolveProofs
   Addr.Url Addr.Parse Addr.Policy Addr.ParseProofs Bundle.Lookup.
 From Coq Require Import Lia.
 
-(* ---------- components of rooted paths ---------- *)
-Definition rstack (p : str) : list str := snd (nrun true (0, []) (split_on slash p)).
-
-Lemma rstack_ok p : st_ok (0, rstack p).
-Proof.
-  unfold rstack. pose proof (nrun_ok true (split_on slash p) (0, []) eq_refl (split_segs_noslash p)) as H.
-  exact H.
-Qed.
-
-Lemma clean_rooted p : is_rooted p = true -> clean p = slash :: join_with slash (rev (rstack p)).
-Proof.
-  intros Hr. unfold clean. destruct p as [|c p]; [discriminate|]. rewrite Hr.
-  unfold rstack. pose proof (nrun_rooted_ups (split_on slash (c :: p)) (0, [])) as Hu.
-  destruct (nrun true (0, []) (split_on slash (c :: p))) as [u rn]. cbn in Hu. subst u. reflexivity.
-Qed.
-
-Lemma seg_ok_nonempty g : seg_ok g = true -> is_empty g = false.
-Proof. intros H. apply seg_ok_plain, plain_cases in H. tauto. Qed.
-
-Lemma filter_nonempty_ok l : forallb seg_ok l = true -> filter (fun g => negb (is_empty g)) l = l.
-Proof.
-  induction l as [|g l IH]; [reflexivity|]. cbn. intros H. apply andb_true_iff in H as [Hg Hl].
-  rewrite (seg_ok_nonempty _ Hg). cbn. now rewrite IH.
-Qed.
-
-Lemma forallb_seg_ok_rev l : forallb seg_ok (rev l) = forallb seg_ok l.
-Proof. apply forallb_rev. Qed.
-
-Lemma split_rooted_print rn :
-  forallb seg_ok rn = true ->
-  filter (fun g => negb (is_empty g)) (split_on slash (slash :: join_with slash (rev rn))) = rev rn.
-Proof.
-  intros H. cbn [split_on]. rewrite Ascii.eqb_refl. cbn [filter is_empty negb].
-  destruct rn as [|g rn]; [reflexivity|].
-  rewrite split_join.
-  - apply filter_nonempty_ok. now rewrite forallb_seg_ok_rev.
-  - cbn. destruct (rev rn); discriminate.
-  - intros x Hx. apply seg_ok_no_slash. rewrite <- forallb_seg_ok_rev in H.
-    rewrite forallb_forall in H. now apply H.
-Qed.
-
+(* ---------- components of rooted paths (Base/Rooted.v) ---------- *)
 Theorem comps_rooted p : is_rooted p = true -> comps p = rev (rstack p).
-Proof.
-  intros Hr. unfold comps. rewrite clean_rooted by exact Hr.
-  apply split_rooted_print. apply (rstack_ok p).
-Qed.
-
-(* running the rooted machine over root ++ "/" ++ rel *)
-Lemma rstack_app root rel :
-  rstack (root ++ slash :: rel) = snd (nrun true (0, rstack root) (split_on slash rel)).
-Proof.
-  unfold rstack. rewrite split_on_app, nrun_app.
-  pose proof (nrun_rooted_ups (split_on slash root) (0, [])) as Hu.
-  destruct (nrun true (0, []) (split_on slash root)) as [u rn]. cbn in Hu. now subst u.
-Qed.
-
-Lemma rstack_app_plain root segs :
-  segs <> [] -> forallb seg_ok segs = true ->
-  rstack (root ++ slash :: join_with slash segs) = rev segs ++ rstack root.
-Proof.
-  intros Hne Hs. rewrite rstack_app, split_join; [|exact Hne|].
-  - rewrite nrun_plain by now apply forallb_seg_ok_plain. reflexivity.
-  - intros g Hg. apply seg_ok_no_slash. rewrite forallb_forall in Hs. now apply Hs.
-Qed.
+Proof. exact (rcomps_rooted p). Qed.
 
 (* ---------- directory names ---------- *)
 Lemma local_dir_seg_ok d : local_dir_ok d = true -> seg_ok d = true.
